@@ -32,7 +32,7 @@ func (f *FailoverOf[V]) VerifKeyLocks() int {
 	// through the simulator's lock table: if a task holds f.lock across a scheduling point (only a broken
 	// library does), the caller parks and the run ends as "stuck" instead of hanging the worker process
 	zzverifsim.MuLock("verif-hook", &f.lock)
-	defer zzverifsim.MuUnlock("verif-hook", &f.lock)
+	defer zzverifsim.MuUnlockQuiet(&f.lock)
 
 	return len(f.keyLocks)
 }
@@ -42,7 +42,7 @@ func (f *FailoverOf[V]) VerifKeyLockNames() []string {
 	// through the simulator's lock table: if a task holds f.lock across a scheduling point (only a broken
 	// library does), the caller parks and the run ends as "stuck" instead of hanging the worker process
 	zzverifsim.MuLock("verif-hook", &f.lock)
-	defer zzverifsim.MuUnlock("verif-hook", &f.lock)
+	defer zzverifsim.MuUnlockQuiet(&f.lock)
 
 	return verifMapKeyNames(f.keyLocks)
 }
